@@ -78,26 +78,46 @@ def pipeline(ctx, san, plain, k, p):
 EDIT_SCRIPT = '''
 newdocument(%(doc)d)
 %(pi)s_probdef(%(probdef)s)
-%(pi)s_addnode(0,0) %(pi)s_addnode(4,0) %(pi)s_addnode(4,3) %(pi)s_addnode(0,3)
-%(pi)s_addsegment(0,0,4,0) %(pi)s_addsegment(4,0,4,3) %(pi)s_addsegment(4,3,0,3) %(pi)s_addsegment(0,3,0,0)
-%(pi)s_addnode(1,1) %(pi)s_addnode(2,1) %(pi)s_addsegment(1,1,2,1)
+%(pi)s_addnode(0,0)
+%(pi)s_addnode(4,0)
+%(pi)s_addnode(4,3)
+%(pi)s_addnode(0,3)
+%(pi)s_addsegment(0,0,4,0)
+%(pi)s_addsegment(4,0,4,3)
+%(pi)s_addsegment(4,3,0,3)
+%(pi)s_addsegment(0,3,0,0)
+%(pi)s_addnode(1,1)
+%(pi)s_addnode(2,1)
+%(pi)s_addsegment(1,1,2,1)
 %(pi)s_addarc(2,1,1,1,180,10)
-%(pi)s_addblocklabel(0.5,0.5) %(pi)s_addblocklabel(1.5,1.2)
-%(pi)s_selectnode(1,1) %(pi)s_selectnode(2,1)
+%(pi)s_addblocklabel(0.5,0.5)
+%(pi)s_addblocklabel(1.5,1.2)
+%(pi)s_seteditmode("nodes")
+%(pi)s_selectnode(1,1)
+%(pi)s_selectnode(2,1)
 %(pi)s_copytranslate(0.25,1.0,%(ncopy)d)
 %(pi)s_clearselected()
-%(pi)s_selectsegment(1.5,1) %(pi)s_selectarcsegment(1.5,1.5)
+%(pi)s_seteditmode("segments")
+%(pi)s_selectsegment(1.5,1)
 %(pi)s_copytranslate(1.5,0.125,2)
 %(pi)s_clearselected()
+%(pi)s_seteditmode("arcsegments")
+%(pi)s_selectarcsegment(1.5,1.5)
+%(pi)s_copytranslate(0.125,1.25,2)
+%(pi)s_clearselected()
+%(pi)s_seteditmode("blocks")
 %(pi)s_selectlabel(1.5,1.2)
 %(pi)s_copyrotate(2,1.5,30,%(ncopy)d)
 %(pi)s_clearselected()
+%(pi)s_seteditmode("nodes")
 %(pi)s_selectnode(1,1)
 %(pi)s_mirror(2,0,2,3)
 %(pi)s_clearselected()
+%(pi)s_seteditmode("segments")
 %(pi)s_selectsegment(2,0)
 %(pi)s_moverotate(2,1.5,0.0)
 %(pi)s_clearselected()
+%(pi)s_seteditmode("blocks")
 %(pi)s_selectlabel(0.5,0.5)
 %(pi)s_movetranslate(0.0625,0.03125)
 %(pi)s_clearselected()
@@ -113,7 +133,6 @@ def edit_replay(ctx, san, k, kind, ncopy):
     probdef = {"fem": '0,"millimeters","planar",1e-8,1,30', "fee": '"millimeters","planar",1e-8,1,30', "feh": '"millimeters","planar",1e-8,1,30'}[kind]
     doc = {"fem": 0, "fee": 1, "feh": 2}[kind]
     txt = EDIT_SCRIPT % dict(pi=pi, doc=doc, probdef=probdef, ncopy=ncopy, out=os.path.join(wd, "out" + EXT[kind]))
-    txt = "\n".join(l for l in txt.replace(") %s_" % pi, ")\n%s_" % pi).split("\n"))
     lua = os.path.join(wd, "edit.lua")
     open(lua, "w").write(txt)
     rc, rep, tail = run_tool(san, "femmcli", ["--lua-script=" + lua], wd, 0x33)
